@@ -820,6 +820,16 @@ func isAssertExpr(n ast.Node) bool { _, ok := n.(*ast.TypeAssertExpr); return ok
 func isAnyExpr(n ast.Node) bool    { _, ok := n.(ast.Expr); return ok }
 
 func (f *Frame) safe(kind string, pos token.Pos, reach, goal string, want func(ast.Node) bool) {
+	if kind == "nil" {
+		// (not (= X 0)) where X is a freshly allocated object or the (non-nil) receiver: trivially true
+		x := strings.TrimSuffix(strings.TrimPrefix(goal, "(not (= "), " 0))")
+		if strings.HasPrefix(x, "ref.") && !strings.Contains(x, " ") {
+			return
+		}
+		if f.c.nonNil[x] {
+			return
+		}
+	}
 	txt := f.srcText(pos, want)
 	f.oblige("safe:"+kind+"@"+txt, nil, reach, goal)
 }
